@@ -127,6 +127,21 @@ def _clock():
         invariants_note="MC config checks I => P (the transcribed _transform_dst fence-post slicing returns one value per clock hour from the right slot)")
 
 
+def _seg():
+    return runner.PureSpec(
+        prop="C18", module="Seg", trace_module="SegTrace", driver="drivers.seg",
+        cfg={"quick": "Seg_quick.cfg", "thorough": "Seg_thorough.cfg"}, sample={"quick": 4000, "thorough": None}, variants=lambda tier, r, cin: ["-"],
+        spec_files=["Seg.tla", "SegDefs.tla", "SegTrace.tla"], always=lambda b: 'kind |-> "occ"' not in b,
+        rule="TLC enumerates (segment type x year x month x zone) weight cases, (year x month x zone) routing cases, (temperature x endpoint subset) "
+             "bin cases, (occupancy x temperature x two endpoint subsets) feature cases and all 168 hour-of-week cases; weight and routing cases are "
+             "decided over every hour of the month in a leap and a non-leap year; non-trivial = everything except the empty-endpoint bin case",
+        assumptions=["weights are compared doubled as integers; bin features on integer temperatures are exact",
+                     "routing is observed through a CalTRACKHourlyModel whose twelve segment models are replaced by constants naming their centre month",
+                     "a weight/routing case covers all hours of its month by requiring a single distinct weight row / model code among them"],
+        invariants_note="MC config checks the partition-of-unity theorems of the weight tables, that routing inverts 'full weight', the bin theorems "
+                        "(sum to T, non-negative, width-bounded, prefix-filled) and that 24*dow+hour is onto 0..167")
+
+
 class C06Entry:
     """C06 = Clock (hourly) + the row-per-timestamp and finiteness clauses of RowFrame (daily, billing)."""
 
@@ -161,7 +176,7 @@ class LifeEntry:
         return lifeprops.selftest(self.prop)
 
 
-_REG = {"C20": lambda: PureEntry(_window()), "C07": lambda: PureEntry(_rowframe("C07")), "C19": lambda: PureEntry(_agg()), "C06": lambda: C06Entry()}
+_REG = {"C20": lambda: PureEntry(_window()), "C07": lambda: PureEntry(_rowframe("C07")), "C19": lambda: PureEntry(_agg()), "C06": lambda: C06Entry(), "C18": lambda: PureEntry(_seg())}
 for _p in ("C01", "C02", "C03", "C04", "C05"):
     _REG[_p] = (lambda p: (lambda: LifeEntry(p)))(_p)
 
